@@ -55,12 +55,36 @@ def model_collisions(result) -> int:
     return last
 
 
+_ambient = None
+
+
+def value_equality_matters(prog) -> bool:
+    """the heap the model builds for `prog` differs from the heap built by its identity-keyed twin (the same model
+    with the copy lookup keyed by object identity): some lookup conflated distinct value-equal objects."""
+    global _ambient
+    from . import progs, stream
+    if _ambient is None:
+        _ambient = progs.ambient_durations()
+    return stream.value_equality_matters(prog, _ambient)
+
+
 @matcher('value_equal_keys_in_copy_lookup')
 def _r3(prop, result, failure, finding):
-    # any copy-related predicate failure, provided the model (which agrees) reports a key collision
+    # any copy-related predicate failure, provided the model (which agrees with the implementation on this input)
+    # reports a key collision, or builds a different heap once its lookups are keyed by identity instead of value
     if failure.get('probe') not in ('C05', 'C07', 'C03'):
         return False
-    return model_collisions(result) > 0
+    if model_collisions(result) > 0:
+        return True
+    return value_equality_matters(result['prog'][:failure['at'] + 1])
+
+
+@matcher('copy_drops_group_reference_listed_later')
+def _r24(prop, result, failure, finding):
+    # the copy of an unrolled circuit: a group (latest-of) relation lost a member that the original lists AFTER the
+    # operation carrying the relation (R23), so it was not yet in the transfer lookup when the relation was copied
+    return (failure.get('probe') == 'C05' and bool(failure.get('group_ref_dropped'))
+            and any(c[0] == 'apply' for c in result['prog'][:failure['at'] + 1]))
 
 
 @matcher('cycle_after_unroll_then_flatten')
